@@ -907,6 +907,7 @@ int main(int argc, char** argv) {
     REG("ef", ModularExtended<float>); REG("ed", ModularExtended<double>);
     REG("mg32", Montgomery<int32_t>); REG("log16", Modular<Log16>);
     REG("gfq32", GFqDom<int32_t>); REG("gfq64", GFqDom<int64_t>); REG("gf2", GF2);
+    REG("mI", Modular<Integer>);
     REG("zi64", UnparametricZRing<int64_t>); REG("zu64", UnparametricZRing<uint64_t>); REG("zd", UnparametricZRing<double>);
     REGP("i32", Modular<int32_t>); REGP("u64", Modular<uint64_t>); REGP("d", Modular<double>); REGP("bi32", ModularBalanced<int32_t>);
     REGP("bd", ModularBalanced<double>); REGP("mg32", Montgomery<int32_t>); REGP("gfq32", GFqDom<int32_t>); REGP("gfq64", GFqDom<int64_t>);
